@@ -619,7 +619,15 @@ func takeOne(inputValue reflect.Value, inputType reflect.Type, from string) (tak
 
 		return f.Interface(), f.Type(), nil
 	case reflect.Ptr, reflect.Interface:
+		actualType := inputValue.Type()
 		inputValue = inputValue.Elem()
+		if !inputValue.IsValid() {
+			// a nil pointer / nil interface has no field to take: a request-time error, not a panic
+			return nil, nil, &errInterfaceNotValidForFieldMapping{
+				interfaceType: inputType,
+				actualType:    actualType,
+			}
+		}
 		fallthrough
 	case reflect.Struct:
 		f, err = checkAndExtractFromField(from, inputValue)
@@ -630,9 +638,13 @@ func takeOne(inputValue reflect.Value, inputType reflect.Type, from string) (tak
 		return f.Interface(), f.Type(), nil
 	default:
 		if inputType.Kind() == reflect.Interface {
+			var actualType reflect.Type // stays nil for a nil interface value
+			if inputValue.IsValid() {
+				actualType = inputValue.Type()
+			}
 			return nil, nil, &errInterfaceNotValidForFieldMapping{
 				interfaceType: inputType,
-				actualType:    inputValue.Type(),
+				actualType:    actualType,
 			}
 		}
 
